@@ -1039,6 +1039,46 @@ def _fn_names(v, depth=0):
     return set()
 
 
+def rule_equivariant_guards(ctx, rule):
+    """finite estimates for EVERY unit: a guard that ends GET_EYE early (raise / return) must not test the waveform with something that has a
+    unit of its own - np.allclose / np.isclose compare with rtol*|b| + atol (the default atol = 1e-8 is volts, the relative part is measured
+    against the pedestal), a comparison of samples with a numeric literal is a threshold in volts.  A 1 mV eye on a 100 V offset is then
+    "constant", a 1 uV eye "too small": the estimate depends on the unit.  Exact tests (==, array_equal, ptp() == 0) are equivariant"""
+    fi = ctx.pkg.func("devices.GET_EYE")
+    wave = {"input"}
+    for n in ast.walk(fi.node):
+        if isinstance(n, ast.Assign) and len(n.targets) == 1 and isinstance(n.targets[0], ast.Name) and any(isinstance(x, ast.Name) and x.id in wave for x in ast.walk(n.value)) \
+                and not any(isinstance(x, ast.Call) and src_of(x.func).split(".")[-1] in ("len", "sps", "dt", "KMeans", "linspace", "kron") for x in ast.walk(n.value)):
+            if n.targets[0].id in ("samples", "y", "signal", "x_"):
+                wave.add(n.targets[0].id)
+    mentions = lambda e: any(isinstance(x, ast.Name) and x.id in wave for x in ast.walk(e))
+    found = 0
+    for n in ast.walk(fi.node):
+        if not isinstance(n, ast.If):
+            continue
+        ends = any(isinstance(x, (ast.Raise, ast.Return)) for st in n.body for x in ast.walk(st))
+        if not ends:
+            continue
+        for x in ast.walk(n.test):
+            bad = None
+            if isinstance(x, ast.Call) and src_of(x.func).split(".")[-1] in ("allclose", "isclose") and any(mentions(a) for a in x.args):
+                bad = f"`{src_of(x)}` compares with rtol*|b| + atol: the absolute part is a voltage, the relative part is measured against the pedestal"
+            elif isinstance(x, ast.Compare) and len(x.ops) == 1 and isinstance(x.ops[0], (ast.Lt, ast.LtE, ast.Gt, ast.GtE)):
+                sides = [x.left, x.comparators[0]]
+                lit = [s_ for s_ in sides if isinstance(s_, ast.Constant) and isinstance(s_.value, (int, float)) and not isinstance(s_.value, bool) and s_.value != 0]
+                oth = [s_ for s_ in sides if s_ not in lit]
+                if lit and oth and mentions(oth[0]) and not any(isinstance(c_, ast.Call) and src_of(c_.func).split(".")[-1] in ("len", "size", "sps") for c_ in ast.walk(oth[0])) \
+                        and not any(isinstance(c_, ast.Attribute) and c_.attr in ("size", "ndim", "shape") for c_ in ast.walk(oth[0])):
+                    bad = f"`{src_of(x)}` compares samples with the literal {lit[0].value!r}: a threshold with a unit"
+            if bad:
+                found += 1
+                ctx.violation(rule, fi, n, f"GET_EYE: early exit under `{src_of(n.test)[:80]}`",
+                              bad + " - the same waveform in other units (1 mV eye on a 100 V offset; alpha = 1e-3) takes the other branch: GET_EYE raises / returns early where it "
+                              "owes finite estimates, and the estimate is not equivariant")
+    if not found:
+        ctx.holds(rule, fi, fi.node, "GET_EYE: early exits test the waveform only with unit-free conditions", "no tolerance-based or literal-threshold guard on the samples")
+
+
 def rule_level_split(ctx, rule):
     """mu0, mu1 within 8 % of the levels for EVERY pattern with both symbols present: the first thing GET_EYE does is split the samples
     into an upper and a lower population around `vm`.  Taken as the mean of the two centres of a least-squares 2-means fit with random
@@ -1418,4 +1458,5 @@ def run(ctx):
     rule_sampling_index(ctx, "C17.11")
     rule_threshold_interior(ctx, "C17.12")
     rule_level_split(ctx, "C17.13")
+    rule_equivariant_guards(ctx, "C17.14")
     ctx.require_min("C17.11", 2)
